@@ -13,7 +13,8 @@
 (*   np, removable[i] in {0,1}  (0: a numbered instance directory),        *)
 (*   type[i] (file / symlink / dir) and last[i] (last character of path i) *)
 (*   key    global files and directories; summary and last PU file of a     *)
-(*          CPUID dump                                                     *)
+(*          CPUID dump; top: the few of them that every enumeration run    *)
+(*          removes on their own under every configuration                 *)
 (*   cand   the other removable paths of the core area (sys/devices/system, *)
 (*          proc, the CPUID dump), rest: the removable paths outside of it *)
 (*   w      share (percent) of the per-snapshot budget of single removals  *)
@@ -49,6 +50,7 @@ ASSUME /\ Sel \subseteq 1..NSnap
             \* the table's removable flags obey the rule of the property (type and last character of every path)
             /\ \A i \in 1..tab.np : tab.removable[i] = 1 => SnRemovable(tab.type[i], tab.last[i])
             /\ \A j \in DOMAIN tab.key : tab.key[j] \in 1..tab.np /\ tab.removable[tab.key[j]] = 1
+            /\ SeqSet(tab.top) \subseteq SeqSet(tab.key)
             /\ \A j \in DOMAIN tab.cand : tab.cand[j] \in 1..tab.np /\ tab.removable[tab.cand[j]] = 1
             /\ \A j \in DOMAIN tab.rest : tab.rest[j] \in 1..tab.np /\ tab.removable[tab.rest[j]] = 1
             /\ tab.ncore \in 0..Len(tab.classes)
@@ -68,7 +70,8 @@ Small(k) == PairMax > 0 /\ Len(Tabs[k].cand) + Len(Tabs[k].key) <= PairMax
 Share(k, n) == IF n = 0 THEN 0 ELSE LET m == (n * Tabs[k].w) \div 100 IN IF m < 1 THEN 1 ELSE m
 \* constant tables (evaluated once)
 SingleSel == [k \in 1..NSnap |-> IF k \notin Sel THEN {} ELSE
-                {Tabs[k].key[j] : j \in (IF Small(k) THEN DOMAIN Tabs[k].key ELSE SelIdx(Tabs[k].key, NKeys))}
+                (IF NKeys > 0 THEN SeqSet(Tabs[k].top) ELSE {})
+                \cup {Tabs[k].key[j] : j \in (IF Small(k) THEN DOMAIN Tabs[k].key ELSE SelIdx(Tabs[k].key, NKeys))}
                 \cup {Tabs[k].cand[j] : j \in (IF Small(k) THEN DOMAIN Tabs[k].cand ELSE SelIdx(Tabs[k].cand, Share(k, NSingles)))}
                 \cup {Tabs[k].rest[j] : j \in SelIdx(Tabs[k].rest, Share(k, NRest))}]
 SelRange(lo, hi, n) == IF n <= 0 \/ hi < lo THEN {}
@@ -126,7 +129,10 @@ RemoveMany ==
   /\ how' = "multi"
   /\ UNCHANGED <<pc, sn, cfg, todo>>
 
-CfgSelected(ci, fi) == rs = {} \/ CfgStride = 1 \/ (SumSet(rs) + ci + fi + Seed) % CfgStride = 0
+TopSet == [k \in 1..NSnap |-> IF k \notin Sel THEN {} ELSE SeqSet(Tabs[k].top)]
+CfgSelected(ci, fi) == \/ rs = {} \/ CfgStride = 1
+                       \/ (how = "single" /\ rs \subseteq TopSet[sn])
+                       \/ (SumSet(rs) + ci + fi + Seed) % CfgStride = 0
 Configure ==
   /\ pc = "faults" /\ (SimMode => how # "none")
   /\ LET comps == SnComps(Tabs[sn].kind) IN
